@@ -724,7 +724,12 @@ def stage_with_items_and_names(ctx: Ctx):
     # (b)
     cases = [('import asab as a', 'names[0]', 'asname'), ('import asyncio as a', 'names[0]', 'asname'), ('from m import has as s', 'names[0]', 'asname'), ('import a.b as c', 'names[0]', 'asname'),
              ('import x as asx, asy as y', 'names[1]', 'asname'), ('from . import (has  as \\\n  s, t)', 'names[0]', 'asname'), ('import asas', 'names[0]', 'asname'), ('import a as b', 'names[0]', 'name'),
-             ('from asm import basic as c', 'names[0]', 'name'), ('from asm import basic as c', '', 'module')]
+             ('from asm import basic as c', 'names[0]', 'name'), ('from asm import basic as c', '', 'module'),
+             # dotted names written with blanks / line continuations around the dots, or with compatibility characters: the name in the source is not the string in the tree
+             ('import a . b as c', 'names[0]', 'asname'), ('import a . b', 'names[0]', 'asname'), ('import a . b', 'names[0]', 'name'), ('import a \\\n . b as c', 'names[0]', 'asname'),
+             ('import a \\\n . b as c, d', 'names[0]', 'name'), ('import a. b .c, d . e as f', 'names[1]', 'asname'), ('import a. b .c, d . e as f', 'names[0]', 'asname'),
+             ('import \ufb01.\ufb02 as x', 'names[0]', 'asname'), ('import \ufb01.\ufb02', 'names[0]', 'asname'), ('import \ufb01.\ufb02, y', 'names[0]', 'name'), ('from m import \ufb01 as x', 'names[0]', 'asname'),
+             ('from m import \ufb01', 'names[0]', 'asname')]
     for src, path, fld in cases:
         for newv in ('zz', 'as_', None):
             if newv is None and fld != 'asname':
